@@ -807,3 +807,52 @@ Theorem C13_writer_follows_core : forall sx phy en ms lc tl evs ls,
 Proof. exact PvWriterTotal.emulate_total. Qed.
 Print Assumptions C13_writer_follows_core.
 (* ==== end of block (PvWriterTotal) ==== *)
+
+(* ==== generated emulator is the model, all models (EmuGenInv, EmuGenFull) ==== *)
+(* C13_generated_emulator_is_model_partial with its invariant found and proved, for ALL EIGHT models and the marks: no condition
+   on the events is left.  The invariant is EmuGenInv.PInv sx st := ThreadCpuProofs.Bind sx (EmuGenInv.norm st), the thread/CPU
+   binding invariant on the state with the kernel's out-of-CPU flags cleared.
+   C13_invariant_kept: every accepted step of the core, of any event, keeps it (thread-state / affinity events: oh_step commutes
+   with norm on accepted steps and ThreadCpuProofs.sim_step keeps Bind; every other event - table-driven channel events, kernel
+   context switches, task events and creations of nosv / nanos6, marks, flushes - leaves thread states, thread CPUs and CPU
+   lists alone); it holds initially and gives GuardsProofs.GInv, what the generated guards read.
+   C13_generated_iter_is_model: hence in every state reached by accepted events the generated iteration (emu_step from the source
+   with the generated handler of the event's model) is the model's iteration.
+   C13_generated_emulator_is_model_all: PvDefs.emulate with its replay run by the generated handlers = PvDefs.emulate, refusal for
+   refusal, file for file, for any event list whose thread indices are rows of the system.
+   C13_generated_emulator_is_model: on the composed whole-emulator model, for EVERY input that reaches the emulate stage: running
+   the replay with the generated handlers gives ovniemu_model's answer, the same six files or a refusal on both sides. *)
+From OV Require Proofs.EmuGenInv Proofs.EmuGenFull Proofs.ThreadCpuProofs Proofs.GuardsProofs.
+Theorem C13_invariant_kept : forall sx,
+  EmuGenInv.PInv sx (init sx) /\
+  (forall st who ev st1 ls, EmuGenInv.PInv sx st -> step sx st who ev = Ok (st1, ls) -> EmuGenInv.PInv sx st1) /\
+  (forall st, EmuGenInv.PInv sx st -> GuardsProofs.GInv sx st /\ length (threads st) = length (s_threads sx)).
+Proof. exact EmuGenFull.invariant_kept. Qed.
+Print Assumptions C13_invariant_kept.
+
+Theorem C13_generated_iter_is_model : forall sx en marks st r dclock who c,
+  s_chans sx = mk_chans en ++ marks -> (forall m, memz m en = true -> In m DispatchProofs.all_models) ->
+  EmuGenInv.PInv sx st -> (who < length (s_threads sx))%nat ->
+  EmuGenAllProofs.same_res (EmuGenAllProofs.gen_iter sx en st r dclock who c)
+                           (EmuLoopRelDefs.pv_iter sx st r dclock who (EmuGenAllProofs.rawc_event en sx c)) /\
+  (forall st1 ls, step sx st who (EmuGenAllProofs.rawc_event en sx c) = Ok (st1, ls) -> EmuGenInv.PInv sx st1).
+Proof. exact EmuGenFull.generated_iter_is_model_inv. Qed.
+Print Assumptions C13_generated_iter_is_model.
+
+Theorem C13_generated_emulator_is_model_all : forall sx phy en ms lintchans tl revs marks,
+  s_chans sx = mk_chans en ++ marks -> (forall m, memz m en = true -> In m DispatchProofs.all_models) ->
+  (forall rv, In rv revs -> (EmuGenAllProofs.rev_thread rv < length (s_threads sx))%nat) ->
+  EmuGenAllProofs.same_res (EmuGenAllProofs.emulate_gen sx phy en ms lintchans tl revs)
+                           (emulate sx phy en ms lintchans tl (EmuGenAllProofs.decode_revs en sx revs)).
+Proof. exact EmuGenFull.generated_emulate_is_model. Qed.
+Print Assumptions C13_generated_emulator_is_model_all.
+
+Theorem C13_generated_emulator_is_model : forall inp sys en ms revs, EmuAllStage.stage inp = inr (sys, en, ms, revs) ->
+  let sx := EmuAllStage.stage_sx inp sys en ms in
+  match EmuGenAllProofs.emulate_gen sx (SysStaticDefs.sys_phy sys) en ms (lint_chans (mk_chans en)) (tlabels_of sx revs) revs with
+  | Ok out => EmuAllDefs.ovniemu_model inp = EmuAllDefs.Files out
+  | Err _ => exists e, EmuAllDefs.ovniemu_model inp = EmuAllDefs.Refused (EmuAllDefs.REmu e)
+  end.
+Proof. exact EmuGenFull.generated_all. Qed.
+Print Assumptions C13_generated_emulator_is_model.
+(* ==== end of block (EmuGenInv, EmuGenFull) ==== *)
